@@ -722,6 +722,17 @@ def subst(t: Term, mapping: Dict[Term, Term], _memo=None) -> Term:
     return r
 
 
+def where_to_ite(t: Term) -> Term:
+    """Read every jnp.where(c, a, b) in t as an elementwise ite(c, a, b) (for rules that reason leaf-wise)."""
+    for _ in range(6):
+        ws = [x for x in walk(t) if x[0] == "call" and x[1] == "jax.numpy.where" and len(x[2]) == 3]
+        if not ws:
+            return t
+        inner = [w for w in ws if not any(y is not w and y[0] == "call" and y[1] == "jax.numpy.where" for y in walk(w))] or ws
+        t = subst(t, {w: mk_ite(w[2][0], w[2][1], w[2][2]) for w in inner})
+    return t
+
+
 def assume(t: Term, cond: Term, value: bool = True) -> Term:
     """Specialise t under the assumption that cond is true (false): cond, its conjuncts and their negations
     are replaced by constants wherever they occur (as ite selectors or guards)."""
